@@ -12,6 +12,8 @@ def resolve(relpath: str, qualname: str):
     obj = mod
     for p in qualname.split('.'):
         obj = getattr(obj, p)
+    if isinstance(obj, property):      # a contract on a property is a contract on its getter
+        obj = obj.fget
     return obj
 
 
